@@ -86,6 +86,12 @@ func (fr *frame) execWalk(ct *Contract, args []Val, argTypes []types.Type, st *S
 	S := vc.define("walkset", stv.sort, stv.t)
 	lenT := "(" + ct.WalkLen + " " + S + ")"
 	vc.assume("true", "(>= "+lenT+" 0)")
+	// the spec's postconditions (the enumeration facts of this key set) hold independently of the callback
+	for _, cl := range ct.Ensures {
+		if cl.inSlice(vc.calleeSlice()) {
+			vc.assume(alive, teS.formula(cl.E))
+		}
+	}
 	walkTE := func(state *State, widx string) *TEnv {
 		te := fr.namesEnv(state)
 		te.vars["widx"] = TV{t: widx, sort: sortInt}
